@@ -434,8 +434,8 @@ static void case_pq_random(Rng& rng, uint64_t)
 	else if(f == 18)
 	{
 		fam = "tiny a";
-		a	= rng.loguni(1e-6, 1e-2);
-		x	= rng.loguni(1e-12, 40.0);
+		a	= rng.coin() ? rng.loguni(1e-6, 1e-2) : rng.loguni(1e-300, 1e-6);	  // "all a in (0, 1e4]": P is 1 - O(a), Q = O(a) (defect D30: P > 1, Q < 0)
+		x	= rng.coin(0.2) ? rng.loguni(1e-300, 1e-12) : rng.loguni(1e-12, 40.0);
 	}
 	else
 	{
@@ -459,6 +459,9 @@ static std::vector<std::pair<double, double>> grid_points()
 	std::vector<std::pair<double, double>> g;
 	// witnesses (x,a): D19 (quadrature accepted a crude estimate), D10 (continued fraction), D11 (negative Q)
 	g.push_back({208.89, 196.92});
+	g.push_back({1e-5, 1e-300});   // D30: P = 1.0000000000000488, Q = -4.9e-14 before the fix
+	g.push_back({0.5, 1e-15});
+	g.push_back({0.1, 1e-30});
 	g.push_back({2780.4, 2488.1});
 	g.push_back({3.0, 2.0});
 	g.push_back({12.0, 3.5});
